@@ -6,7 +6,7 @@
 // modes: rand <seed> <nruns> | dfs <preemption bound> <maxruns> | replay <t,t,t,...> | script <tid:cond,...> (see ScriptSchedule)
 // Per run prints
 //   run <i>
-//   e <tid> <kind> <var> <a> <b> <ok>      accesses to the flag's state word (values as hi.lo: hi = 1 + owner thread of
+//   e <tid> <kind> <var> <a> <b> <ok> <order>   accesses to the flag's state word (values as hi.lo: hi = 1 + owner thread of
 //                                          the runner the pointer bits designate, lo = low reference bits), to a
 //                                          runner's m_ref_count / m_is_ready / wait_context (var = refc:<owner> ...),
 //                                          and the user function's invocation counter (fcount), in execution order
@@ -15,6 +15,7 @@
 //   sched <tids> / end
 // Linked with harness-local r1 stubs (see r1_once_stubs.cpp for why) — only header code is under test.
 #include <oneapi/tbb/collaborative_call_once.h>
+#include "verif_hb.h"
 #include <cstdio>
 #include <cstring>
 #include <map>
@@ -74,8 +75,10 @@ static bool run_once(verif::Schedule& sch, int run_idx, bool print) {
                     if (successes != 0) fail("function invoked again after a successful completion (invocation " + std::to_string(a) + ")");
                     if (g_throws.count(a)) throw once_exc{a, (int)t};
                     payload = 4242;
+                    verif::note("gw", 1);      // ghost plain write of the function's effect (happens-before monitor)
                     successes++;
                 });
+                verif::note("gr", 1);           // ghost plain read of the function's effect right after the call returned
                 verif::note("call_end", t, c);
                 in_call[t] = 0;
                 if (successes != 1) fail("call of thread " + std::to_string(t) + " returned normally with " + std::to_string(successes) + " successful completions");
@@ -93,6 +96,10 @@ static bool run_once(verif::Schedule& sch, int run_idx, bool print) {
     verif::Result r = verif::run(bodies, sch, 400000);
 
     // ---- post-run monitors over the access log ----
+    if (!r.deadlock) {
+        verif::HbStats hst; auto races = verif::hb_check(r.log, T, &hst);
+        if (!races.empty()) fail("happens-before: a returning caller's read of the function's effects is not ordered after the write by the memory orders the code passed: " + verif::hb_describe(r.log, races[0]));
+    }
     const void* sa = (const void*)&flag.m_state;
     const void* fa = (const void*)&fcount;
     // field offsets inside a runner (white box)
@@ -142,10 +149,10 @@ static bool run_once(verif::Schedule& sch, int run_idx, bool print) {
             std::string a, b;
             if (e.kind == verif::K_LOAD) { a = word_str(e.a, owner); b = "0"; chk(e.a); }
             else { a = word_str(e.a, owner); b = word_str(e.b, owner); if (e.kind != verif::K_CAS || e.ok) chk(e.b); }
-            snprintf(buf, sizeof buf, "e %d %s state %s %s %d", e.tid, verif::kind_name(e.kind), a.c_str(), b.c_str(), e.ok);
+            snprintf(buf, sizeof buf, "e %d %s state %s %s %d %s", e.tid, verif::kind_name(e.kind), a.c_str(), b.c_str(), e.ok, verif::order_name(e.order));
             lines.push_back(buf);
         } else if (e.addr == fa) {
-            snprintf(buf, sizeof buf, "e %d %s fcount %llu %llu %d", e.tid, verif::kind_name(e.kind), (unsigned long long)e.a, (unsigned long long)e.b, e.ok);
+            snprintf(buf, sizeof buf, "e %d %s fcount %llu %llu %d %s", e.tid, verif::kind_name(e.kind), (unsigned long long)e.a, (unsigned long long)e.b, e.ok, verif::order_name(e.order));
             lines.push_back(buf);
         } else {
             std::uintptr_t ad = (std::uintptr_t)e.addr;
@@ -164,7 +171,7 @@ static bool run_once(verif::Schedule& sch, int run_idx, bool print) {
                 own = e.tid;
             }
             if (own != e.tid && !live[own]) fail(std::string("access to ") + f + " of the runner of thread " + std::to_string(own) + " after it was destroyed (by thread " + std::to_string(e.tid) + ")");
-            snprintf(buf, sizeof buf, "e %d %s %s:%d %llu %llu %d", e.tid, verif::kind_name(e.kind), f, own, (unsigned long long)e.a, (unsigned long long)e.b, e.ok);
+            snprintf(buf, sizeof buf, "e %d %s %s:%d %llu %llu %d %s", e.tid, verif::kind_name(e.kind), f, own, (unsigned long long)e.a, (unsigned long long)e.b, e.ok, verif::order_name(e.order));
             lines.push_back(buf);
         }
     }
